@@ -16,6 +16,10 @@ CHECKS['C07'] = dict(
     text='Differential monitor of parse_interest/parse_data/parse_lp_packet_v2/parse_certificate/Name.from_bytes against an independent strict reader on random strings, grammar-generated packets and single-edit mutants; exception-class monitor; interpreter-step budget (sys.monitoring) for the linear-time clause. One open known finding (inner-overrun-accepted).',
     design_ref='DESIGN.md 3/C07', technique='runtime differential monitor + sys.monitoring step budget over fuzzed and mutated inputs',
     note='critical = odd type (library definition); legal int width = 1,2,4,8; step budget 60*len+5000 events.')
+CHECKS['C08'] = dict(
+    text='Generated TlvModel classes (programs) and all shipped models are encoded by the real code and compared byte-for-byte with an independent exact/minimal reference encoder working on the generator-owned spec; decode is compared after normalisation; unknown non-critical/critical elements are inserted at every gap of every nesting level (incl. between a map key and its value), critical elements duplicated and swapped. Held on the classes/values explored.',
+    design_ref='DESIGN.md 3/C08', technique='runtime differential monitor over generated programs (model classes) and inputs, with structural fault injection on the wire',
+    note='Trusts refcodec and the reflection over _encoded_fields for shipped models; packet models with procedure arguments are covered by C01/C02.')
 _ALL = ['C%02d' % i for i in range(1, 21)]
 for _p in _ALL:
     if _p not in CHECKS:
